@@ -64,31 +64,19 @@ NCallsGated(ms) == Cardinality({i \in DOMAIN ms : ms[i] = "call"})
 NCalls(ms) == Cardinality({i \in DOMAIN ms : ms[i] \in {"call", "unk"}})
 NNotifs(ms) == Cardinality({i \in DOMAIN ms : ms[i] = "notif"})
 Perms(n) == {f \in [1..n -> 1..n] : \A i, j \in 1..n : i # j => f[i] # f[j]}
-\* When the peer re-uses the ids of a batch.  It may do so as soon as it HOLDS the batch reply: "received" = the reply has
-\* been delivered to the peer but the SDK's Write of it has not returned yet (the peer's next batch is read by the SDK's
-\* read loop inside that window); "returned" = after that Write has returned.
-ReuseTimings == {"returned", "received"}
-\* the instants of a batch's life, in order; an id is busy from "read" until the instant the bookkeeping frees it
-Instant == [read |-> 0, recorded |-> 1, received |-> 2, returned |-> 3]
-\* ioConn.updateBatch forgets an id when its response is RECORDED (under the write lock, before the reply is marshalled)
-CodeFreesIdsAt == "recorded"
-BatchCases(n) == { [t |-> "batch", era |-> "2025-03-26", members |-> ms, order |-> ord, reuse |-> ru] :
-                     ms \in SeqsUpTo(n), ord \in UNION {Perms(k) : k \in 0..n}, ru \in ReuseTimings }
-\* (a batch without calls has no reply, hence no window)
-BatchSet(n) == {c \in BatchCases(n) : Len(c.order) = NCallsGated(c.members) /\ (NCalls(c.members) = 0 => c.reuse = "returned")}
+BatchCases(n) == { [t |-> "batch", era |-> "2025-03-26", members |-> ms, order |-> ord] :
+                     ms \in SeqsUpTo(n), ord \in UNION {Perms(k) : k \in 0..n} }
+BatchSet(n) == {c \in BatchCases(n) : Len(c.order) = NCallsGated(c.members)}
 \* longer batches of notifications and calls (calls released in member order): in-order handling (C03) and the
 \* bookkeeping of ids beyond the first few members
 LongMembers == UNION {[1..k -> {"call", "notif"}] : k \in 4..6}
 IdPerm(n) == [i \in 1..n |-> i]
-LongBatchSet == { c \in { [t |-> "batch", era |-> "2025-03-26", members |-> ms, order |-> IdPerm(NCallsGated(ms)), reuse |-> ru] :
-                              ms \in LongMembers, ru \in ReuseTimings } : NCalls(c.members) = 0 => c.reuse = "returned" }
+LongBatchSet == { [t |-> "batch", era |-> "2025-03-26", members |-> ms, order |-> IdPerm(NCallsGated(ms))] : ms \in LongMembers }
 
 \* ioConn tracks only the CALLS of a batch as unresolved; the reply array is written when the last one is answered
 ExpectedBatch(c) ==
   LET nc == NCalls(c.members) IN
-  [alive |-> TRUE, flushes |-> IF nc > 0 THEN 1 ELSE 0, flushAfter |-> nc, flushSize |-> nc, singles |-> 0, premature |-> FALSE,
-   \* a later batch re-using the ids is accepted iff the bookkeeping has freed them by the time the peer re-uses them
-   reuseOk |-> Instant[CodeFreesIdsAt] <= Instant[c.reuse]]
+  [alive |-> TRUE, flushes |-> IF nc > 0 THEN 1 ELSE 0, flushAfter |-> nc, flushSize |-> nc, singles |-> 0, premature |-> FALSE]
 
 BatchClauses(c, o) ==
   LET nc == NCalls(c.members) IN
@@ -98,8 +86,7 @@ BatchClauses(c, o) ==
                                  ELSE o.flushes = 1 /\ o.flushAfter = nc /\ ~o.premature,
    BatchReplyComplete |-> (nc > 0 /\ o.flushes = 1) => o.flushSize = nc,
    BatchNoStrayResponses |-> o.singles = 0,
-   \* once a batch is complete its ids are free again - from the moment the peer holds the reply (c.reuse), whether or
-   \* not the SDK's Write of the reply has returned (C02)
+   \* once a batch is complete its ids are free again (C02)
    BatchIdsReusable |-> o.reuseOk,
    \* members are handled in batch order: nothing later in the batch starts before an earlier NOTIFICATION's handler
    \* (calls release the dispatcher before their user handler runs, so two calls' starts are not ordered) (C03)
